@@ -404,13 +404,17 @@ def part_b_case(fill, ctl, ign, cfg, d):
 def part_b(stats, shard, nshards, tier):
     d = tools.workdir()
     cfgs = [c for _, c in core.deviations(OPTION_DEFAULTS, OPTION_ALTS, 1)]
+    cfgs.append(dict(OPTION_DEFAULTS, hex=1, lower=1))         # -H -l together: lower-case hexadecimal digits a-f
     cases = []
     for fill in ('code', 'text', 'const', 'rst'):
         for ctl, ign, desc in layouts(fill, tier):
             simple = desc.count('+') == 0 or len(desc.split('@')[0]) == 1
+            based = re.search(r'[,:][bcdhm]\d', ctl) is not None
             for ci, cfg in enumerate(cfgs):
                 if ci and not simple and tier == 'quick':
-                    continue
+                    # layouts with an explicit base prefix still meet the base/case options (and -H -l together)
+                    if not (based and (cfg['hex'] or cfg['lower']) and all(cfg[k] == OPTION_DEFAULTS[k] for k in cfg if k not in ('hex', 'lower'))):
+                        continue
                 if cfg['rst'] and fill != 'rst':
                     continue
                 if fill == 'rst' and not cfg['rst'] and ci:
@@ -492,11 +496,52 @@ def part_c(stats, shard, nshards, tier):
         stats.nontriv(('C', code0[0], code0[1], code0[3]))
 
 
+def part_d_cases():
+    """Whole relative jumps next to the two ends of the address space: (opcode, address, displacement) with the
+    target in -3..2 or 65533..65538 (inside, on and beyond the edge)."""
+    for op in (0x18, 0x10, 0x28, 0x38):
+        for a in range(65534, 65534 - 131, -1):
+            for target in (65533, 65534, 65535, 65536, 65537, 65538):
+                disp = target - a - 2
+                if -128 <= disp <= 127:
+                    yield op, a, disp & 0xFF
+        for a in range(0, 130):
+            for target in (-3, -2, -1, 0, 1, 2):
+                disp = target - a - 2
+                if -128 <= disp <= 127:
+                    yield op, a, disp & 0xFF
+
+
+def part_d_case(op, a, disp, hexa, d):
+    binfile = tools.write_file('d.bin', bytes((op, disp)), d)
+    ctl = 'c {}\ni {}\n'.format(a, a + 2) if a + 2 < 65536 else 'c {}\n'.format(a)
+    res, problems, skool = run_pair(binfile, a, a + 2, ctl, ['-H'] if hexa else [], d, 'd')
+    if res is None:
+        return problems
+    bad = compare(res[0], bytes((op, disp)), a, a + 2)
+    return ['byte at {} is {} (original {})'.format(x, g, w) for x, w, g in bad] + problems[:2]
+
+
+def part_d(stats, shard, nshards, tier):
+    d = tools.workdir()
+    for i, (op, a, disp) in core.shard_iter(part_d_cases(), shard, nshards):
+        for hexa in (0, 1):
+            problems = part_d_case(op, a, disp, hexa, d)
+            stats.evaluations += 1
+            stats.transitions += 2
+            stats.counters['D_cases'] += 1
+            if problems:
+                stats.violation('D/{:02X}{:02X}@{}/hex{}'.format(op, disp, a, hexa), {'part': 'D', 'op': op, 'a': a, 'disp': disp, 'hex': hexa},
+                                '; '.join(problems[:3]), tags={'part': 'D', 'op': op}, order=3 * 10**6 + i)
+        stats.nontriv(('D', op, a, disp))
+
+
 def _shard(shard, nshards, tier, seed):
     stats = core.Stats(PROPERTY)
     part_a(stats, shard, nshards, tier)
     part_b(stats, shard, nshards, tier)
     part_c(stats, shard, nshards, tier)
+    part_d(stats, shard, nshards, tier)
     return stats
 
 
@@ -507,13 +552,13 @@ def run(tier, seed):
         rule='A: an image of every opcode slot x operand bytes from {00,01,22,41,5C,7F,80,FF} (every combination) disassembled under each base letter '
              '(+ 36 two-letter pairs on the two-operand forms) x -H x -l x Opcodes settings; B: every control-file layout of <= 2 blocks over 8 block '
              'types x 3 (thorough 7) split points with <= 1 sub-block from a menu of B/C/S/T/W sublength patterns, M and L directives, on 4 fills, with '
-             'sna2skool option deviations d <= 1 on the simple layouts; C: every slot cut by the 64K edge at k = 1..4 with Wrap 0/1. evaluations = '
+             'sna2skool option deviations d <= 1 on the simple layouts; C: every slot cut by the 64K edge at k = 1..4 with Wrap 0/1; D: whole relative jumps (JR, DJNZ, JR Z, JR C) at every address within 130 bytes of either end of memory with targets inside, on and beyond the edge, decimal and hex. evaluations = '
              'instructions (A) / layouts (B) / edge cases (C); states = distinct layout shapes; layouts that make sna2skool warn (ill-formed) are counted, not judged',
         exhaustive=True,
         bound='<= 2 blocks, <= 1 sub-block, option deviations d <= 1',
         assumptions=["base 'm' is applied only to non-zero operands and not to RST / IN A,(n) / OUT (n),A (as in C02)",
                      'sub-block boundaries are generated on statement boundaries (2-byte instruction fill; even W lengths; S on constant runs)'],
-        required_guards=['A_runs', 'B_judged', 'C_cases'],
+        required_guards=['A_runs', 'B_judged', 'C_cases', 'D_cases'],
     )
     return stats, meta
 
@@ -536,4 +581,6 @@ def replay(case):
             return problems
         bad = compare(res[0], data, ORG, end)
         return ['byte at {} is {} (original {})'.format(a, g, w) for a, w, g in bad[:5]] + problems[:3]
+    if case['part'] == 'D':
+        return part_d_case(case['op'], case['a'], case['disp'], case['hex'], d)
     return ['replay of part C cases: run ./check C01 (cheap)']
